@@ -69,10 +69,9 @@ type c19Result struct {
 // c19Domain reports a request outside the callers' preconditions.
 var errC19Domain = errors.New("outside domain")
 
-// c19RunFindPath answers q the way ChannelRouter.FindRoute does:
-// NewRouteRequest -> findPath -> newRoute.
-func c19RunFindPath(q *c19Query) c19Result {
-	m := q.m
+// c19NewRequest renders q as the RouteRequest the RPC layer would build. A
+// nil request comes with the result to report (outside domain / hint error).
+func c19NewRequest(q *c19Query) (*RouteRequest, c19Result) {
 	restr := &RestrictParams{
 		ProbabilitySource:  q.Probs.source(),
 		FeeLimit:           lnwire.MilliSatoshi(q.FeeLimit),
@@ -85,20 +84,17 @@ func c19RunFindPath(q *c19Query) c19Result {
 		Metadata:           q.metadata(),
 	}
 
-	var (
-		req *RouteRequest
-		err error
-	)
+	var req *RouteRequest
 	if q.isBlinded() {
 		payments := q.blindedPayments()
 		for _, p := range payments {
 			if err := p.Validate(); err != nil {
-				return c19Result{err: errC19Domain, stage: "domain"}
+				return nil, c19Result{err: errC19Domain, stage: "domain"}
 			}
 		}
 		set, err := NewBlindedPaymentPathSet(payments)
 		if err != nil {
-			return c19Result{err: errC19Domain, stage: "domain"}
+			return nil, c19Result{err: errC19Domain, stage: "domain"}
 		}
 		if f := set.Features(); f != nil {
 			restr.DestFeatures = f.Clone()
@@ -109,12 +105,12 @@ func c19RunFindPath(q *c19Query) c19Result {
 			restr, nil, nil, set, 0,
 		)
 		if err != nil {
-			return c19Result{err: errC19Domain, stage: "domain"}
+			return nil, c19Result{err: errC19Domain, stage: "domain"}
 		}
 	} else {
 		hints, err := RouteHintsToEdges(q.zpayHints(), q.Target)
 		if err != nil {
-			return c19Result{err: err, stage: "hints"}
+			return nil, c19Result{err: err, stage: "hints"}
 		}
 		tgt := q.Target
 		req, err = NewRouteRequest(
@@ -122,8 +118,20 @@ func c19RunFindPath(q *c19Query) c19Result {
 			restr, q.customRecords(), hints, nil, q.FinalDlt,
 		)
 		if err != nil {
-			return c19Result{err: errC19Domain, stage: "domain"}
+			return nil, c19Result{err: errC19Domain, stage: "domain"}
 		}
+	}
+
+	return req, c19Result{}
+}
+
+// c19RunFindPath answers q the way ChannelRouter.FindRoute does:
+// NewRouteRequest -> findPath -> newRoute.
+func c19RunFindPath(q *c19Query) c19Result {
+	m := q.m
+	req, res := c19NewRequest(q)
+	if req == nil {
+		return res
 	}
 
 	bw := &c19BW{hints: q.BW}
